@@ -114,9 +114,31 @@ def sample_flow_cfg(rng, D=None, ctx=None):
                 "volume_preserving": bool(rng.random() < 0.3), "bn_between": bool(rng.random() < 0.3), "ctx": 0}
     n = int(rng.integers(1, 4))
     parts = [zoo.sample_R_cfg(rng, "quick", D, ctx) for _ in range(n)]
-    base = str(rng.choice(["standard", "standard", "cond_diag"])) if ctx else "standard"
+    base = str(rng.choice(["standard", "standard", "cond_diag", "plain"])) if ctx else str(rng.choice(["standard", "standard", "plain"]))
     return {"flow": "generic", "D": D, "ctx": ctx, "parts": parts, "base": base,
             "embed": bool(ctx and rng.random() < 0.4)}
+
+
+def plain_base(shape):
+    """A user-defined base distribution whose log_prob / sample / sample_and_log_prob take NO context argument (Flow inspects
+    the signature and supports such bases: `_context_used_in_base == False`)."""
+    from nflows.distributions.base import Distribution
+    from nflows.distributions import StandardNormal
+
+    class PlainBase(Distribution):
+        def __init__(self, shape):
+            super().__init__()
+            self.inner = StandardNormal(shape)
+
+        def log_prob(self, inputs):
+            return self.inner.log_prob(inputs)
+
+        def sample(self, num_samples, batch_size=None):
+            return self.inner.sample(num_samples, batch_size=batch_size)
+
+        def sample_and_log_prob(self, num_samples):
+            return self.inner.sample_and_log_prob(num_samples)
+    return PlainBase(shape)
 
 
 def build_flow(cfg, seed=0, policy="randn1"):
@@ -144,6 +166,8 @@ def build_flow(cfg, seed=0, policy="randn1"):
     tr = T.CompositeTransform(parts)
     if cfg["base"] == "standard":
         base = Dd.StandardNormal([D])
+    elif cfg["base"] == "plain":
+        base = plain_base([D])
     else:
         base = Dd.ConditionalDiagonalNormal([D], context_encoder=Encoder(ectx, 2 * D, 0.5))
     f = Fl.Flow(tr, base, embedding_net=emb)
@@ -208,7 +232,7 @@ def sample_program_flow(rng, D):
         if "B" in c:
             c["B"] = float(rng.choice([1.0, 2.5]))
         parts.append(c)
-    base = str(rng.choice(["standard", "standard", "diag", "cond_diag", "mademog"] if ctx else ["standard", "standard", "diag", "mademog"]))
+    base = str(rng.choice(["standard", "standard", "diag", "cond_diag", "mademog", "plain"] if ctx else ["standard", "standard", "diag", "mademog", "plain"]))
     if D >= 2:
         # Sigmoid..Logit pairs clamp at eps (declared): their image is only +-13.8/T.  In 2-D (no reachability test) they
         # are used only as the last part in front of a standard normal, whose mass that range covers.
@@ -249,6 +273,8 @@ def build_program_flow(cfg, seed):
         base = Dd.StandardNormal([D])
     elif cfg["base"] == "diag":
         base = Dd.DiagonalNormal([D])
+    elif cfg["base"] == "plain":
+        base = plain_base([D])
     elif cfg["base"] == "cond_diag":
         base = Dd.ConditionalDiagonalNormal([D], context_encoder=Encoder(ctx, 2 * D, 0.5))
     else:
